@@ -16,7 +16,8 @@ RULE = ('(b) moduli: odd and even, bit lengths 9..1100 plus every 37th up to 409
         'minimal top word, 2^(k-1)+small (quick: random + one forced per length; thorough: all 7); operands from '
         '12 classes (0, 1, m-1, 2^j, 2^j-1, 2^j+1, 0/all-ones words, random, m-small, same top part as m, '
         '2^(k-1)-1, random short); exponents of 7 classes, 0..64 bytes bounded by a cost budget (thorough: also '
-        'full size); every 2-byte (i15) / 4-byte alignment combination of (d,x,y,m) for montymul; modpow_opt with '
+        'full size; both tiers: full-size exponents for 2048/3072/4096-bit moduli, modpow_opt of i15/i31/i62 with the smallest and the largest area, '
+        'modpow of i15/i31 at 2048 bits); every 2-byte (i15) / 4-byte alignment combination of (d,x,y,m) for montymul; modpow_opt with '
         'every tmp size for small moduli and all window thresholds +-1 otherwise.  A configuration is distinct by '
         '(variant, bit length, pattern); alignment tuples, window classes and edge rows are counted separately.  '
         '(a) full cross product of a 166-value edge set plus random/structured pairs.  The random stream of a '
@@ -46,7 +47,7 @@ REQUIRED = ['cmp_total', 'cmp_prim', 'divrem_in_domain', 'edge_pairs', 'suites',
             'cmp_i15_reduce', 'cmp_i15_decode_reduce', 'cmp_i15_decode_mod', 'cmp_i15_decode', 'cmp_i15_encode',
             'cmp_i15_add', 'cmp_i15_sub', 'cmp_i15_mulacc', 'cmp_i15_rshift', 'cmp_i15_bit_length',
             'cmp_i15_to_monty', 'cmp_i15_from_monty', 'cmp_i15_ninv', 'cmp_i15_iszero', 'cmp_i15_zero',
-            'modpow_opt_too_short', 'modpow_opt_all_sizes_moduli']
+            'modpow_opt_too_short', 'modpow_opt_all_sizes_moduli', 'modpow_fullsize_large_modulus']
 
 NW = 16
 # primitives: random pairs per worker (default build, CT-multiplication build)
@@ -87,6 +88,9 @@ def finish(res, tier, seed):
         got = len([a for a in rs if a.startswith(v + ':')])
         if got < w:
             res.inconclusive.append('only %d/%d residues of the bit length modulo the word size for %s' % (got, w, v))
+    if len(res.distinct.get('fullsize', ())) < 18:
+        res.inconclusive.append('only %d/18 full-size-exponent modpow_opt configurations (variant x 2048/3072/4096 bits x min/max area)'
+                                % len(res.distinct.get('fullsize', ())))
     if len(res.distinct.get('mulcfg', ())) < 2:
         res.inconclusive.append('primitives were not run with both definitions of the MUL31/MUL15 macros')
     if res.maxes.get('edge_values', 0) < 160:
